@@ -259,7 +259,7 @@ def _equal_time_hazard(ins, model_out, expiries, rt=0, sync=()):
 def run(ctx, deep=False):
     thorough = deep or ctx.tier == "thorough"
     n = 4000 if thorough else 400
-    cfgs = [(2400, 2640), (80, 120), (40, 48)]
+    cfgs = [(2400, 2640), (80, 120), (40, 48), (40, 104)]     # (the last: a timeout that tolerates a lost response, more than two intervals)
     ctx.coverage["rule"] = (
         "answer patterns over 1..6 consecutive heartbeats (answered after 1 tick / 1 s / just below / just above / well above the "
         "30 s margin / never), extra responses, outages, stop in the middle, three (interval, timeout) configurations incl. the "
